@@ -32,7 +32,7 @@ META = {
         "rec_fuel_bound is PARTIAL: proved are fuel monotonicity and absence of internal panics; that the explicit fuel_bound "
         "suffices (at most three loop iterations per visit) is only validated on every generated instance",
     ],
-    "quick_s": 60, "thorough_s": 700,
+    "quick_s": 90, "thorough_s": 900,
 }
 
 WORK_LIMIT = 10 ** 7
@@ -40,7 +40,7 @@ WORK_LIMIT = 10 ** 7
 
 def engine_part(ctx):
     rng = ctx.rng
-    n = ctx.n(400, 8000)
+    n = ctx.n(400, 2500)
     cases = []
     for i in range(n):
         shape, G = E.gen_graph(rng, E.SHAPES[i % len(E.SHAPES)] if i < 3 * len(E.SHAPES) else None, nmax=ctx.n(7, 9))
@@ -83,12 +83,12 @@ CONFIGS = [("slg-ms4", H.slg_with(4)), ("slg", H.SLG), ("rec-od20-ms4", H.rec_wi
 def solver_part(ctx):
     rng = ctx.rng
     shapes = None
-    progs = H.programs(rng, ctx.n(10, 150), goals_per=(3, 1, 2))
+    progs = H.programs(rng, ctx.n(10, 40), goals_per=(3, 1, 2))
     for p, goals in pg.corpus():        # F1, F13/F14, F16, F7 witnesses of the proggen fragment
         progs.append((p, pg.to_text(p), goals, [pg.goal_text(g) for g in goals]))
     # the growing / polymorphic-recursion shapes explicitly
     for sh in (pg.shape_growing, pg.shape_poly_rec, pg.shape_nested_chain):
-        for _ in range(ctx.n(1, 10)):
+        for _ in range(ctx.n(1, 4)):
             p = sh(rng)
             gg = pg.GoalGen(rng, p)
             gs = [g for g in gg.goals(2, 1, 2) if not pg.is_floundering_prone(g)]
